@@ -71,11 +71,16 @@ def main(ctx):
         graphs_by_src[key] = (gj, gpath)
         n_conf = sum(len(b) for b in gj["before"])
         ev.nontrivial_add("%s:%d jobs:%d ordered conflict pairs" % (rel, gj["n"], n_conf))
+        # all recorded builds of this source go into one log, separated by Reset events (one JVM start)
+        tpath = ctx.path("sched", "%s.ndjson" % rel.replace("/", "_"))
+        tr = []
         for k, (run, g) in enumerate(zip(good, gs)):
-            tpath = ctx.path("sched", "%s_%d.ndjson" % (rel.replace("/", "_"), k))
-            tr = graphs.scheduler_trace(g, gj)
-            graphs.write_ndjson(tpath, tr)
-            vjobs.append((dict(source=rel, flags=flags, config=run["cfg"], events=len(tr)), gpath, tpath))
+            if k:
+                tr.append({"ev": "Reset"})
+            tr += graphs.scheduler_trace(g, gj)
+        graphs.write_ndjson(tpath, tr)
+        vjobs.append((dict(source=rel, flags=flags, config=[r["cfg"] for r in good], events=len(tr), builds=len(good)),
+                      gpath, tpath))
     if n_ok_sources == 0:
         raise common.ToolError("no source compiled")
 
@@ -84,22 +89,22 @@ def main(ctx):
     for label, status, r in sched.validate_traces(ctx, vjobs):
         ev.evaluations += 1
         if status == "accepted":
-            ev.traces += 1
+            ev.traces += label.get("builds", 1)
             continue
         tpath = [j[2] for j in vjobs if j[0] is label][0]
         k, e = sched.stuck_at(r, tpath)
         if status.startswith("invariant:"):
             inv = status.split(":", 1)[1]
-            text = "recorded build of %s (threads=%s jitter=%s): invariant %s of Workload.tla is violated at event %s" % (
-                label["source"], label["config"][0], label["config"][1], inv, k)
+            text = "recorded build of %s (configs %s): invariant %s of Workload.tla is violated at event %s" % (
+                label["source"], label["config"], inv, k)
             if inv in PROPERTY_INVARIANTS:
                 ctx.violation("trace-inv:%s:%s" % (label["source"], inv), text,
                               dict(label=label, trace=tpath, tlc=common.tlc_trace_text(r.out)[-6000:]))
             else:
                 ctx.drift("WorkloadTrace", text)
         elif status == "stuck":
-            text = "recorded build of %s (threads=%s jitter=%s): event %s %s is not a step of Workload.tla" % (
-                label["source"], label["config"][0], label["config"][1], k, e)
+            text = "recorded build of %s (configs %s): event %s %s is not a step of Workload.tla" % (
+                label["source"], label["config"], k, e)
             if e and e.get("ev") in ("Launch", "Unable"):
                 # the scheduler launched a job (or gave up) where the spec's can_run / give-up guard says no
                 ctx.violation("trace-guard:%s:%s" % (label["source"], e.get("ev")), text,
